@@ -2,7 +2,13 @@
 // someone else's" — the real controlcommands.Servent + CommandQueue, driven by a
 // scripted scenario through the exported API only.
 //
-// Input  : (cmds script)
+// Input  : (cmds script) | (cmds script executors)
+//
+//	executors := ((t e)*)   optional: target t (its TaskId "t<t>") sits behind AgentId "a<e>" and
+//	          ExecutorId "e<e>"; a target that is not listed has agent and executor of its own
+//	          ("a<t>", "e<t>"). Any partition of the targets into executors can be written; several
+//	          targets of ONE command behind one executor (differing only in the task id) is the
+//	          production layout (one executor per agent). The identity of a target is still t.
 //
 //	cmds   := ((q tmo (t mode [arg])*)*)   command index = position; model id = 100+index
 //	          q    queue index (queues share ONE Servent; the core has one queue)
@@ -153,16 +159,50 @@ func target(n int) controlcommands.MesosCommandTarget {
 	}
 }
 
-func targetNo(t controlcommands.MesosCommandTarget) int {
+func targetNo(t controlcommands.MesosCommandTarget) int { return targetNoEx(t, nil) }
+
+// targetEx: target n under an assignment of targets to executors (nil / unlisted: an executor of its own).
+func targetEx(n int, ex map[int]int) controlcommands.MesosCommandTarget {
+	e, ok := ex[n]
+	if !ok {
+		e = n
+	}
+	return controlcommands.MesosCommandTarget{
+		AgentId:    mesos.AgentID{Value: "a" + strconv.Itoa(e)},
+		ExecutorId: mesos.ExecutorID{Value: "e" + strconv.Itoa(e)},
+		TaskId:     mesos.TaskID{Value: "t" + strconv.Itoa(n)},
+	}
+}
+
+// targetNoEx: the number of a target the harness made (all three components must be the ones it gave it), else 999.
+func targetNoEx(t controlcommands.MesosCommandTarget, ex map[int]int) int {
 	v := t.TaskId.Value
-	if len(v) < 2 || v[0] != 't' || t.AgentId.Value != "a"+v[1:] || t.ExecutorId.Value != "e"+v[1:] {
+	if len(v) < 2 || v[0] != 't' {
 		return 999
 	}
 	n, err := strconv.Atoi(v[1:])
-	if err != nil {
+	if err != nil || t != targetEx(n, ex) {
 		return 999
 	}
 	return n
+}
+
+// parseExecutors: the optional third field of the input.
+func parseExecutors(in *sx.Node) (map[int]int, error) {
+	if in.Len() < 3 {
+		return nil, nil
+	}
+	ex := map[int]int{}
+	for _, p := range in.At(2).List {
+		if p.Len() != 2 || p.At(0).Int() < 0 || p.At(1).Int() < 0 {
+			return nil, fmt.Errorf("bad executor assignment")
+		}
+		if _, dup := ex[p.At(0).Int()]; dup {
+			return nil, fmt.Errorf("target assigned twice")
+		}
+		ex[p.At(0).Int()] = p.At(1).Int()
+	}
+	return ex, nil
 }
 
 type tspec struct {
@@ -188,6 +228,7 @@ type run struct {
 	idOf    map[xid.ID]int // real command id -> model id (100+c / 900+n)
 	foreign []xid.ID
 	servent *controlcommands.Servent
+	ex      map[int]int // target -> executor (nil / unlisted: its own)
 
 	sendSeen map[[2]int]chan struct{}
 	sendAt   map[[2]int]time.Time     // (c,t) -> when (S c t ..) was recorded
@@ -438,7 +479,7 @@ func (r *run) issue(mid, c, t, tag int, isErr bool, id xid.ID) (chan struct{}, e
 		r.mu.Lock()
 		r.prGid[returned] = gid
 		r.mu.Unlock()
-		r.servent.ProcessResponse(res, target(t))
+		r.servent.ProcessResponse(res, targetEx(t, r.ex))
 		now := time.Now()
 		r.mu.Lock()
 		if !r.closed {
@@ -543,7 +584,7 @@ func (r *run) settle(returned chan struct{}, c int) error {
 func (r *run) send(command controlcommands.MesosCommand, receiver controlcommands.MesosCommandTarget) error {
 	mid := r.modelID(command.GetId())
 	c := mid - 100
-	t := targetNo(receiver)
+	t := targetNoEx(receiver, r.ex)
 	var spec *tspec
 	if c >= 0 && c < len(r.cmds) {
 		for i := range r.cmds[c].targets {
@@ -759,7 +800,7 @@ func (r *run) result(v controlcommands.MesosCommandResponse) *sx.Node {
 	}
 	var kvs []kv
 	for k, e := range m.GetResponses() {
-		kvs = append(kvs, kv{targetNo(k), r.entry(e)})
+		kvs = append(kvs, kv{targetNoEx(k, r.ex), r.entry(e)})
 	}
 	sort.Slice(kvs, func(i, j int) bool { return kvs[i].t < kvs[j].t })
 	ents := sx.L()
@@ -768,7 +809,7 @@ func (r *run) result(v controlcommands.MesosCommandResponse) *sx.Node {
 	}
 	var errs []int
 	for k := range m.Errors() {
-		errs = append(errs, targetNo(k))
+		errs = append(errs, targetNoEx(k, r.ex))
 	}
 	sort.Ints(errs)
 	en := sx.L(sx.A("errs"))
@@ -779,8 +820,11 @@ func (r *run) result(v controlcommands.MesosCommandResponse) *sx.Node {
 }
 
 func parseInput(in *sx.Node) ([]cspec, []*sx.Node, error) {
-	if in.Len() != 2 {
+	if in.Len() != 2 && in.Len() != 3 {
 		return nil, nil, fmt.Errorf("bad input")
+	}
+	if _, err := parseExecutors(in); err != nil {
+		return nil, nil, err
 	}
 	var cmds []cspec
 	for _, cn := range in.At(0).List {
@@ -850,6 +894,7 @@ func runImpl(input string) (obs string, err error) {
 		qOf: make([]int, len(cmds)), late: make([]bool, len(cmds)), listening: make([]bool, len(cmds)),
 		lisGid: make([]int64, len(cmds)), lost: make([]bool, len(cmds)), consGid: map[int]int64{}, qorder: map[int][]int{},
 		enq: make([]bool, len(cmds)), prGid: map[chan struct{}]int64{}}
+	r.ex, _ = parseExecutors(in)
 	for _, a := range script {
 		if a.At(0).Str() == "L" {
 			if c := a.At(1).Int(); a.Len() == 2 && c >= 0 && c < len(cmds) && !r.late[c] {
@@ -868,13 +913,13 @@ func runImpl(input string) (obs string, err error) {
 		var recv []controlcommands.MesosCommandTarget
 		var args controlcommands.PropertyMapsMap // nil unless some target has arguments
 		for _, ts := range cs.targets {
-			recv = append(recv, target(ts.t))
+			recv = append(recv, targetEx(ts.t, r.ex))
 			r.sendSeen[[2]int{c, ts.t}] = make(chan struct{})
 			if ts.arg > 0 {
 				if args == nil {
 					args = controlcommands.PropertyMapsMap{}
 				}
-				args[target(ts.t)] = controlcommands.PropertyMap{"k": "v" + strconv.Itoa(ts.arg)}
+				args[targetEx(ts.t, r.ex)] = controlcommands.PropertyMap{"k": "v" + strconv.Itoa(ts.arg)}
 			}
 		}
 		cmd := controlcommands.NewMesosCommand_Transition(env, recv, "STANDBY", "CONFIGURE", "CONFIGURED", args)
@@ -1223,6 +1268,9 @@ func init() {
 			"an-error (reply from inside send; the send call returns its error once a goroutine dump shows that reply's ProcessResponse parked in its " +
 			"hand-over or returned: the reply meets a caller that has stopped listening while its entry is still pending — class reply-in-leave-window)}, " +
 			"optional per-target arguments, " +
+			"1 scenario in 6 with an assignment of the targets to executors (any partition: all tasks behind one agent+executor — the production " +
+			"layout —, a few executors, or some targets left on their own: targets of one command, and of overlapping commands, that share agent id " +
+			"and executor id and differ only in the task id), " +
 			"plus duplicate / late / early / foreign-id / wrong-sender / other-command replies in scripted arrival orders, sequential or " +
 			"concurrent Enqueue, one queue (as the core) or two queues on one Servent; 1 scenario in 7 has LATE LISTENERS: 1..4 fast commands " +
 			"enqueued while nobody receives on their callback channel (also pipelined: all enqueued first), the consumer goroutine probed by " +
